@@ -973,7 +973,7 @@ func main() {
 		{"share", c.N(120, 1200), rn.runShare},
 		{"sig", c.N(200, 2000), rn.runSig},
 		{"build", c.N(150, 1500), rn.runBuild},
-		{"validator", c.N(16, 200), rn.runValidator},
+		{"validator", c.N(16, 100), rn.runValidator},
 	}
 	byName := map[string]func(int, string){}
 	var jobs []job
